@@ -934,6 +934,99 @@ fn replay_sign_oracle(sc: &Value) -> Value {
     json!({"status": "done", "signature_verifies_as_row": forged.verify().is_ok()})
 }
 
+// ---- C08
+fn replay_rooms_for_peer(sc: &Value) -> Value {
+    let mut keys = Keys::new();
+    let ra = match room_auth(sc, &mut keys) {
+        Ok(r) => r,
+        Err(e) => return json!({"status": "precondition", "detail": e}),
+    };
+    let key = keys.vk(sc["key"].as_str().unwrap());
+    let set = ra.rooms_for_peer(&key, i(&sc["date"]));
+    let mut names: Vec<String> = vec![];
+    for r in sc["rooms"].as_array().unwrap() {
+        let n = r["id"].as_str().unwrap();
+        if set.contains(&uid(n)) {
+            names.push(n.to_string());
+        }
+    }
+    names.sort();
+    json!({"status": "done", "rooms": names, "count": set.len()})
+}
+
+fn replay_local_event_admission(sc: &Value) -> Value {
+    let mut keys = Keys::new();
+    let room = match build_room(&sc["rooms"][0], &mut keys) {
+        Ok(r) => r,
+        Err(e) => return json!({"status": "precondition", "detail": e}),
+    };
+    let kname = sc["key"].as_str().unwrap();
+    let key = if kname.is_empty() { vec![] } else { keys.vk(kname) };
+    let rid = room.id;
+    let admitted = crate::synchronisation::peer_inbound_service::verif_hook::replay_room_definition_changed(room, key);
+    json!({"status": "done", "admitted": admitted.contains(&rid)})
+}
+
+fn replay_inbound_query(sc: &Value) -> Value {
+    use crate::synchronisation::peer_outbound_service::{InboundQueryService, RemotePeerHandle};
+    use crate::synchronisation::{Answer, Query, QueryProtocol};
+    use std::sync::atomic::AtomicBool;
+    use std::sync::Arc;
+    let rt = tokio::runtime::Builder::new_multi_thread().enable_all().worker_threads(2).build().unwrap();
+    rt.block_on(async {
+        let base = std::env::var("VERIF_DATA_DIR").unwrap_or_else(|_| "/var/cache/discret-verif/data".to_string());
+        let path: std::path::PathBuf = format!("{}/inbound", base).into();
+        std::fs::create_dir_all(&path).unwrap();
+        let (db, own_key, _) = crate::database::graph_database::GraphDatabaseService::start(
+            "verif inbound",
+            "ns { Person{ name:String } }",
+            &crate::security::random32(),
+            &crate::security::random32(),
+            path,
+            &crate::configuration::Configuration::default(),
+            crate::event_service::EventService::new(),
+        )
+        .await
+        .unwrap();
+        let mut keys = Keys::new();
+        let (reply, mut rx) = tokio::sync::mpsc::channel::<Answer>(16);
+        let mut allowed = HashSet::new();
+        for r in sc["allowed"].as_array().unwrap() {
+            allowed.insert(uid(r.as_str().unwrap()));
+        }
+        let mut peer = RemotePeerHandle { allowed_room: allowed, db, verifying_key: own_key.clone(), reply };
+        let room = uid(sc["room"].as_str().unwrap());
+        let query = match sc["query"].as_str().unwrap() {
+            "RoomList" => Query::RoomList,
+            "RoomDefinition" => Query::RoomDefinition(room),
+            "RoomNode" => Query::RoomNode(room),
+            "RoomLog" => Query::RoomLog(room),
+            "RoomLogAt" => Query::RoomLogAt(room, 0),
+            "EdgeDeletionLog" => Query::EdgeDeletionLog(room, "1.0".to_string(), 0),
+            "NodeDeletionLog" => Query::NodeDeletionLog(room, "1.0".to_string(), 0),
+            "RoomDailyNodes" => Query::RoomDailyNodes(room, "1.0".to_string(), 0),
+            "Nodes" => Query::Nodes(room, vec![uid("n")]),
+            "Edges" => Query::Edges(room, vec![(uid("n"), 0)]),
+            "PeersForRoom" => Query::PeersForRoom(room),
+            _ => return json!({"status": "skipped"}),
+        };
+        let bk = sc["bound_key"].as_str().unwrap();
+        let bound = if bk.is_empty() { vec![] } else if bk.starts_with("K1") { own_key.clone() } else { keys.vk(bk) };
+        let vk = Arc::new(tokio::sync::Mutex::new(bound));
+        let ready = Arc::new(AtomicBool::new(sc["conn_ready"].as_bool().unwrap_or(false)));
+        let fp = crate::security::HardwareFingerprint { id: uid("hw"), name: "hw".to_string() };
+        let res = InboundQueryService::process_inbound(QueryProtocol { id: 7, query }, &mut peer, &vk, &ready, &fp).await;
+        let mut answers = vec![];
+        while let Ok(a) = rx.try_recv() {
+            answers.push(a);
+        }
+        let refused = answers.first().map(|a| {
+            !a.success && matches!(bincode::deserialize::<crate::synchronisation::Error>(&a.serialized), Ok(crate::synchronisation::Error::Authorisation(_)))
+        }).unwrap_or(false);
+        json!({"status": "done", "ok": res.is_ok(), "answered": !answers.is_empty(), "authorisation_refused": refused})
+    })
+}
+
 pub fn dispatch(sc: &Value) -> Value {
     match sc["kind"].as_str().unwrap_or("") {
         "entity_mutation" => replay_entity_mutation(sc),
@@ -942,6 +1035,9 @@ pub fn dispatch(sc: &Value) -> Value {
         "c12_mutation" => replay_c12_mutation(sc),
         "daily_marks" => replay_daily_marks(sc),
         "bytes_decoder" => replay_bytes_decoder(sc),
+        "rooms_for_peer" => replay_rooms_for_peer(sc),
+        "local_event_admission" => replay_local_event_admission(sc),
+        "inbound_query" => replay_inbound_query(sc),
         "digest_pair" => replay_digest_pair(sc),
         "sign_oracle" => replay_sign_oracle(sc),
         "acquire_lock" => crate::synchronisation::room_locking_service::verif_hook::replay_acquire_lock(sc),
